@@ -516,6 +516,15 @@ func callSSA(th *thread, caller *frame, callpos token.Pos, fn *ssa.Function, arg
 	if in := m.eng.intrinsicFor(fn); in != nil {
 		return in(fr, args)
 	}
+	if len(m.stubs) > 0 {
+		name := fn.String()
+		for suf, cnt := range m.stubs {
+			if strings.HasSuffix(name, suf) {
+				*cnt++
+				return zeroResult(fn)
+			}
+		}
+	}
 	if fn.Blocks == nil {
 		panic(engineError{"no code for function: " + fn.String()})
 	}
